@@ -127,7 +127,7 @@ impl Property for C17 {
         C17 { router: VerifRouter::new(o) }
     }
     fn n_cases(&self, tier: Tier) -> u64 {
-        tier.pick(200_000, 4_000_000)
+        tier.pick(800_000, 4_000_000)
     }
     fn chunk(&self, _tier: Tier) -> u64 {
         5000
